@@ -93,8 +93,27 @@ pub fn text_hash(text: &str) -> u64 {
     h.finish()
 }
 
+/// Self-test of the crash / hang attribution: `VTEXT_SELFTEST=overflow:<text>` or `hang:<text>`
+/// makes the evaluation of exactly that text overflow the stack or spin.
+fn selftest(text: &str) {
+    #[allow(unconditional_recursion)]
+    fn overflow(n: u64) -> u64 {
+        std::hint::black_box(overflow(n + 1)) + 1
+    }
+    if let Ok(v) = std::env::var("VTEXT_SELFTEST") {
+        if v.strip_prefix("overflow:") == Some(text) {
+            overflow(0);
+        } else if v.strip_prefix("hang:") == Some(text) {
+            loop {
+                std::hint::black_box(0);
+            }
+        }
+    }
+}
+
 pub fn evaluate(property: &str, text: &str, cli: Option<&Cli>) -> Eval {
     CASE_SEQ.fetch_add(1, Ordering::SeqCst);
+    selftest(text);
     match property {
         "C12" => oracle::eval_c12(text),
         "C17" => oracle::eval_c17(text),
